@@ -24,8 +24,10 @@ type features struct {
 	storesSameLine bool
 	// conflictSameLine: a store and another access (load or store, either order) touch the same 64-byte line
 	conflictSameLine bool
-	// loadDestOverwritten: a load's destination register is written again by
-	// another instruction within 16 executed instructions
+	// loadDestOverwritten: the destination register of a load, or of an
+	// instruction that waits for a load result (transitively, within 6
+	// instructions), is written again by another instruction within 16
+	// executed instructions
 	loadDestOverwritten bool
 	// warAfterLoadUse: a consumer of a load result (within 6 instructions of the
 	// load) has another source register that a younger instruction rewrites
@@ -220,7 +222,15 @@ func featuresOf(c *core.Case) *features {
 				}
 			}
 			lastWrite[rd] = i
-			if in.Op.IsLoad() {
+			// "slow" results: a load's, or one computed from a slow result produced
+			// within the last 6 executed instructions (it waits for the load)
+			slow := in.Op.IsLoad()
+			for _, rs := range in.Reads() {
+				if pos, ok := lastLoadDest[rs]; ok && i-pos <= 6 && rs != isa.Zero {
+					slow = true
+				}
+			}
+			if slow {
 				lastLoadDest[rd] = i
 			} else {
 				delete(lastLoadDest, rd)
